@@ -184,10 +184,31 @@ def run_case(case, R):
         if len(vals) == 2 and case["seed"] % 2 == 0:
             pa = make()
             pb = Product(payoff_underlying=pa.payoff_underlying, payoff=pa.payoff, maturity=pa.maturity, notional=3.0 * pa.notional)
+            # ... and a third product of the same classes built on its own objects (nothing is shared between two products a user builds
+            # separately: what one of them is updated to does not reach the other)
+            pc = make()
             hr = np.random.default_rng(case["seed"] + 5)
-            seq = [(int(hr.integers(2)), PR.LOG if hr.random() < 0.5 else PR.IDENDITY) for _ in range(7)]
+            seq = [(int(hr.integers(3)), PR.LOG if hr.random() < 0.5 else PR.IDENDITY) for _ in range(9)]
             seq += [(0, PR.LOG), (1, PR.LOG), (0, PR.IDENDITY), (1, PR.LOG), (0, PR.IDENDITY), (1, PR.IDENDITY)]
+            seq += [(2, PR.IDENDITY), (0, PR.LOG), (2, PR.IDENDITY), (2, PR.LOG), (0, PR.IDENDITY), (2, PR.LOG)]
             for which, rep in seq:
+                if which == 2:
+                    # the separate product is updated once to its representation and then only evaluated (another product switching in between)
+                    try:
+                        if getattr(pc, "_rv_rep", None) != rep:
+                            pc.update(rep)
+                            pc._rv_rep = rep
+                        uv_c = pc.underlying_value(times, np.log(S1) if rep == PR.LOG else S1, np.log(J1) if rep == PR.LOG else J1)
+                        got_c = np.asarray(pc(uv_c), dtype=float)
+                    except Exception as exc:  # noqa: BLE001
+                        R.violation(f"{und_name}-evaluation-raises-separate-products", f"{name} ({rep.name}): {type(exc).__name__}: {exc}", wit)
+                        break
+                    R.hit("shared_object_evaluations")
+                    if not np.allclose(got_c, vals[rep], rtol=1e-10, atol=1e-12, equal_nan=True):
+                        R.violation(f"{und_name}-value-depends-on-another-product-of-the-same-class", f"{name}: a product built on its own objects, updated to {rep.name}, gives "
+                                    f"{got_c.tolist()} after other products of the same classes were updated to other representations; alone it gives {vals[rep].tolist()}", wit)
+                        break
+                    continue
                 prod_ = pb if which else pa
                 try:
                     got_s = _eval(prod_, rep, times, S1, J1)
